@@ -148,6 +148,36 @@ def _match_preorder(o, seq, k):
     return k
 
 
+def derived_objects(obj, label):
+    """Objects derived from an already-queried object: the queries of the copy must
+    describe the copy (no state may leak from the original)."""
+    import hpl.ast as A
+
+    out = []
+    n = W.cname(obj)
+
+    def add(what, fn):
+        try:
+            d = fn()
+        except Exception:  # noqa: BLE001
+            return
+        if d is not obj and d is not None:
+            out.append((f'{what} of {label}', d))
+
+    if hasattr(obj, 'data_type') or n == 'HplPredicateExpression':
+        add('replace_var_reference(a -> this)', lambda: obj.replace_var_reference('a', A.HplThisMessage()))
+        add('replace_var_reference(b -> @zz)', lambda: obj.replace_var_reference('b', A.HplVarReference('@zz')))
+        add('replace_self_reference(@zz)', lambda: obj.replace_self_reference(A.HplVarReference('@zz')))
+    if n == 'HplPredicateExpression':
+        add('negate', lambda: obj.negate())
+        add('but(expression=not e)', lambda: obj.but(expression=A.Not(obj.expression)))
+    if n == 'HplSimpleEvent':
+        add('but(alias=None)', lambda: obj.but(alias=None))
+        add('but(predicate=vacuous)', lambda: obj.but(predicate=A.HplVacuousTruth()))
+        add('replace_var_reference(b -> this)', lambda: obj.replace_var_reference('b', A.HplThisMessage()))
+    return out
+
+
 def objects_for(t, sort, r=None):
     """Real objects (with a label) for one abstract term: expression, predicate,
     events, property; through the parser and through the API."""
@@ -244,6 +274,11 @@ def run(unit):
             r.count('states')
             for kind, detail in check_object(o, label, r):
                 r.violation(kind, {'term': t, 'sort': sort, 'label': label.split(' ')[0]}, detail, size=absyn.size(t))
+            # E4 depth 2: derive from the (now queried) object, query the copy
+            for dlabel, d in derived_objects(o, label):
+                r.count('states')
+                for kind, detail in check_object(d, dlabel, r):
+                    r.violation(kind + ' (object derived from a queried one)', {'term': t, 'sort': sort, 'label': label.split(' ')[0]}, detail, size=absyn.size(t))
         if objs:
             r.count('validated')
         if i % 3001 == 0 and objs:
@@ -258,6 +293,8 @@ def replay(w):
     if 'term' in w:
         for label, o in objects_for(_detuple(w['term']), w['sort']):
             out += [{'sig': k, 'detail': d} for k, d in check_object(o, label)]
+            for dlabel, d in derived_objects(o, label):
+                out += [{'sig': k, 'detail': dd} for k, dd in check_object(d, dlabel)]
     else:
         r = run(('events',))
         out = [{'sig': v['sig'], 'detail': v['detail']} for v in r.violations]
@@ -267,7 +304,7 @@ def replay(w):
 def describe(tier):
     b = bounds(tier)
     return {
-        'rule': f"every Bool/Num term with <= {b['nodes']} nodes over atoms x @a @a.f @b.f m.f 1 p @a.p xs @a.xs with + ** = < and implies not unary-minus abs len sum max, sets (1-3), ranges, indexing xs[..], inclusion, forall/exists binding a or i over arrays/sets/ranges: markers therefore occur in every child slot of every expression node kind; each accepted term is taken as expression (parser and API), predicate, event without alias / with alias a / zz, 3-wide event disjunction, pattern and property; plus a family of 20 multi-event properties and a specification for scope/pattern/property/specification-level iterate() and aliases(). A state = one real object queried; a transition = one group of query calls on it.",
+        'rule': f"every Bool/Num term with <= {b['nodes']} nodes over atoms x @a @a.f @b.f m.f 1 p @a.p xs @a.xs with + ** = < and implies not unary-minus abs len sum max, sets (1-3), ranges, indexing xs[..], inclusion, forall/exists binding a or i over arrays/sets/ranges: markers therefore occur in every child slot of every expression node kind; each accepted term is taken as expression (parser and API), predicate, event without alias / with alias a / zz, 3-wide event disjunction, pattern and property; plus a family of 20 multi-event properties and a specification for scope/pattern/property/specification-level iterate() and aliases(). Every queried expression / predicate / event is then copied (replace_var_reference, replace_self_reference, negate, but) and the copy is queried too (call sequences of depth 2). A state = one real object queried; a transition = one group of query calls on it.",
         'bounds': b,
         'exhaustive': True,
         'assumptions': ['attrs.fields() order is declaration order; the generic walk treats every AST-valued field as a child'],
